@@ -1,8 +1,6 @@
 //! vcheck <ID> quick|thorough | <ID> --replay FILE
 
-mod checks;
-mod util;
-
+use vcheck::checks;
 use vcommon::engine::{self, Report};
 
 fn main() {
@@ -32,6 +30,7 @@ fn main() {
         "C14" => checks::c14::run(&mut rep),
         "C15" => checks::c15::run(&mut rep),
         "C17" => checks::c17::run(&mut rep),
+        "C18" => checks::c18::run(&mut rep),
         "C19" => checks::c19::run(&mut rep),
         "C20" => checks::c20::run(&mut rep),
         _ => {
